@@ -236,6 +236,13 @@ package stdlib
 //@ func kfSelect$1
 //@   ensures [bad-type] !int_ok(app((*args)[1], context)) ==> result == "<BAD-TYPE>"
 //@   assert at "return selectField(" : $arg0 == app((*args)[0], context) && $arg1 == atoi(app((*args)[1], context))
+// {@in val list}: "1" exactly when val is a key of the set, and the set is built from exactly the
+// elements strings.Split hands out (every element goes in, nothing else does)
+//@ func kfArrayIn
+//@   loop 1 invariant forall j in [0, rangeindex + 1) :: in_dom(matchSet, rangeslice()[j])
+//@   loop 1 invariant forall k: str :: in_dom(matchSet, k) ==> exists j in [0, rangeindex + 1) :: rangeslice()[j] == k
+//@ func kfArrayIn$1
+//@   ensures [member] result == (if in_dom(*matchSet, app((*args)[0], context)) then "1" else "")
 // {@len arr}: 0 for the empty string, else one more than the number of separators
 //@ smt
 //@ (declare-fun str_count (Str Str) Int)
